@@ -123,6 +123,19 @@ def run(ctx):
         if want is not None and a.split(" ")[0] != want:
             failing.append(dict(profile="debug", cmd="instop " + m, impl=a, rv32im=want,
                                 why="the value analysis folds mnemonic %r with operator %r, the manual says %r" % (m, a.split(" ")[0], want)))
+    # folding THROUGH the pipeline: straight-line programs on known constants; every constant the value analysis claims is
+    # compared with a concrete RV32IM run (covers the per-mnemonic shortcuts outside MathOp::operate, e.g. sources that are x0)
+    import random, gen, pipe, dump
+    fprogs = [gen.fold_prog(ctx.rng) for _ in range(120 * ctx.scale(5))]
+    fout = lib.run_impl(ctx, [lib.store_cmd("cfg live -", pipe.single(t), "a.s") for t in fprogs], tag="foldprog")
+    evaluations += len(fprogs)
+    for t, line in zip(fprogs, fout):
+        g = dump.parse(lib._PICKS.sub("", line))
+        if g is None:
+            continue
+        findings, _e, _x = interp.run_graph(g, random.Random(ctx.seed + len(line)), runs=1)
+        if findings:
+            failing.append(dict(profile="debug", cmd="fold program", program=t, why="a folded constant is not the RV32IM result: %s" % findings[0], impl=line[:300]))
     forms, dbad, ddis = decode_check(ctx)
     evaluations += len(forms)
     for d in dbad:
